@@ -119,6 +119,9 @@ impl Property for C04 {
         let ex = (if quick { vec![FamId::K256] } else { ALL_FAMS.to_vec() }).into_iter().flat_map(move |f| history::exhaustive(f, if quick { 1 } else { 2 })).map(Case::Hist);
         Box::new(ex.chain(crate::props::c02::C02.enumerate(quick)))
     }
+    fn fuzz_plans(&self) -> Vec<(&'static str, u64)> {
+        vec![("wire_raw", 30000), ("history", 6000)]
+    }
     fn gen(&self, c: &mut Choices) -> Case {
         if c.bool() {
             Case::Hist(history::gen_history(c, None))
